@@ -17,9 +17,12 @@
 import SonicSpec.Model.Hex
 import SonicSpec.Model.JsonTree
 import SonicSpec.Model.Str
+import SonicSpec.Model.StrHtml
+import SonicSpec.Model.StrUtf8
 
 namespace SonicSpec.Opts
 open SonicSpec SonicSpec.Json
+open SonicSpec.Str (htmlEscape correctWith)
 
 /-! ## 1. Config → option words
 
@@ -79,62 +82,15 @@ def applySetterIn (setters : List Setter) (recv meth : String) (arg : Bool) (w :
 
 /-! ## 2. Functions on the output text -/
 
-/-- `encoding/json.HTMLEscape` (everywhere in the text, as the standard library does) -/
-def htmlEscape : Bytes → Bytes
-  | 226 :: 128 :: 168 :: r => 92 :: 117 :: 50 :: 48 :: 50 :: 56 :: htmlEscape r
-  | 226 :: 128 :: 169 :: r => 92 :: 117 :: 50 :: 48 :: 50 :: 57 :: htmlEscape r
-  | c :: r =>
-    if c == 60 then 92 :: 117 :: 48 :: 48 :: 51 :: 99 :: htmlEscape r
-    else if c == 62 then 92 :: 117 :: 48 :: 48 :: 51 :: 101 :: htmlEscape r
-    else if c == 38 then 92 :: 117 :: 48 :: 48 :: 50 :: 54 :: htmlEscape r
-    else c :: htmlEscape r
-  | [] => []
-
-def isCont (b : UInt8) : Bool := 128 ≤ b && b < 192
-
-/-- length of the well-formed UTF-8 sequence at the head (Unicode table 3-7), 0 if there is none -/
-def utf8Len : Bytes → Nat
-  | [] => 0
-  | c :: r =>
-    if c < 128 then 1
-    else if c < 194 then 0
-    else if c < 224 then
-      match r with
-      | b :: _ => if isCont b then 2 else 0
-      | _ => 0
-    else if c < 240 then
-      match r with
-      | b1 :: b2 :: _ =>
-        let lo : UInt8 := if c == 224 then 160 else 128
-        let hi : UInt8 := if c == 237 then 160 else 192
-        if lo ≤ b1 && b1 < hi && isCont b2 then 3 else 0
-      | _ => 0
-    else if c < 245 then
-      match r with
-      | b1 :: b2 :: b3 :: _ =>
-        let lo : UInt8 := if c == 240 then 144 else 128
-        let hi : UInt8 := if c == 244 then 144 else 192
-        if lo ≤ b1 && b1 < hi && isCont b2 && isCont b3 then 4 else 0
-      | _ => 0
-    else 0
-
-/-- every byte that does not start a well-formed sequence replaced by `repl`
-    (`skip` = bytes of the current well-formed sequence still to copy) -/
-def correctGo (repl : Bytes) : Nat → Bytes → Bytes
-  | _, [] => []
-  | skip + 1, c :: r => c :: correctGo repl skip r
-  | 0, c :: r =>
-    match utf8Len (c :: r) with
-    | 0 => repl ++ correctGo repl 0 r
-    | n + 1 => c :: correctGo repl n r
-
-def correctWith (repl : Bytes) (s : Bytes) : Bytes := correctGo repl 0 s
+/-  `encoding/json.HTMLEscape` and the UTF-8 correction are the shared string model's:
+    `Str.htmlEscape` (Model/StrHtml.lean), `Str.correctWith` / `Str.validate` (Model/StrUtf8.lean),
+    with their theorems in Props/C20.lean. -/
 
 /-- the six ASCII bytes `�` (encoder) and the three bytes of U+FFFD (decoder) -/
 def replEsc : Bytes := [92, 117, 102, 102, 102, 100]
 def replRaw : Bytes := [239, 191, 189]
 
-def validUtf8 (s : Bytes) : Bool := correctWith [0] s == s
+def validUtf8 (s : Bytes) : Bool := Str.validate s
 
 /-- post-pass of `encoder.Encode` (encodeFinish): HTML escape first, then UTF-8 correction -/
 def finish (html validate : Bool) (b : Bytes) : Bytes :=
